@@ -43,15 +43,19 @@ type pool struct {
 
 func (p *pool) Acquire(ctx context.Context) (v wire) {
 	p.cond.L.Lock()
+	defer verifEv(evAcqReturn, verifTid(ctx), 0) // registered first: runs after the deferred cancel below
+	verifEv(evAcqEnter, verifTid(ctx), verifB(ctx.Done() != nil))
 
 	// Set up ctx handling when waiting for an available connection
 	if len(p.list) == 0 && p.size == p.cap && !p.down && ctx.Err() == nil && ctx.Done() != nil {
 		poolCtx, cancel := context.WithCancelCause(ctx)
 		defer cancel(errAcquireComplete)
+		verifEv(evAcqArm, verifTid(ctx), 0)
 
 		go func() {
 			<-poolCtx.Done()
 			if context.Cause(poolCtx) != errAcquireComplete { // no need to broadcast if the poolCtx is cancelled explicitly.
+				verifEv(evCtxBcast, verifTid(ctx), 0)
 				p.cond.Broadcast()
 			}
 		}()
@@ -59,34 +63,43 @@ func (p *pool) Acquire(ctx context.Context) (v wire) {
 
 retry:
 	for len(p.list) == 0 && p.size == p.cap && !p.down && ctx.Err() == nil {
+		verifEv(evAcqPark, verifTid(ctx), p.size)
+		verifYield(evAcqPark, verifTid(ctx)) // between the wait-condition check and cond.Wait
 		p.cond.Wait()
+		verifEv(evAcqWake, verifTid(ctx), p.size)
 	}
 
 	if ctx.Err() != nil {
 		deadPipe := deadFn()
 		deadPipe.error.Store(&errs{error: ctx.Err()})
 		v = deadPipe
+		verifEv(evAcqCtxDead, verifTid(ctx), p.size)
 		p.cond.L.Unlock()
 		return v
 	}
 
 	if p.down {
 		v = p.dead
+		verifEv(evAcqDown, verifTid(ctx), p.size)
 		p.cond.L.Unlock()
 		return v
 	}
 	if len(p.list) == 0 {
 		p.size++
+		verifEv(evAcqMake, verifTid(ctx), p.size)
 		// unlock before start to make a new wire
 		// allowing others to make wires concurrently instead of waiting in line
 		p.cond.L.Unlock()
 		v = p.make(ctx)
+		verifYield(evMakeDone, verifTid(ctx))
 		if !v.StopTimer() {
 			p.cond.L.Lock()
 			p.size--
+			verifEv(evMakeBad, verifTid(ctx), verifWid(v))
 			v.Close()
 			goto retry
 		}
+		verifEv(evMakeOk, verifTid(ctx), verifWid(v))
 		return v
 	}
 
@@ -96,9 +109,12 @@ retry:
 	p.list = p.list[:i]
 	if !v.StopTimer() || v.Error() != nil {
 		p.size--
+		verifEv(evPopBad, verifTid(ctx), verifWid(v))
 		v.Close()
 		goto retry
 	}
+	verifEv(evPopOk, verifTid(ctx), verifWid(v))
+	verifEv(evPoolState, p.size, len(p.list))
 	p.cond.L.Unlock()
 	return v
 }
@@ -109,11 +125,15 @@ func (p *pool) Store(v wire) {
 		p.list = append(p.list, v)
 		p.startTimerIfNeeded()
 		v.ResetTimer()
+		verifEv(evStoreIdle, verifWid(v), verifB(p.timerOn))
 	} else {
 		p.size--
 		v.Close()
+		verifEv(evStoreDrop, verifWid(v), 0)
 	}
+	verifEv(evPoolState, p.size, len(p.list))
 	p.cond.L.Unlock()
+	verifEv(evSigPre, 0, 0)
 	p.cond.Signal()
 }
 
@@ -124,6 +144,7 @@ func (p *pool) Close() {
 	for _, w := range p.list {
 		w.Close()
 	}
+	verifEv(evCloseCS, p.size, len(p.list))
 	p.cond.L.Unlock()
 	p.cond.Broadcast()
 }
@@ -154,6 +175,7 @@ func (p *pool) removeIdleConns() {
 
 	p.list = p.list[:newLen]
 	p.timerOn = false
+	verifEv(evIdleCleanup, p.size, len(p.list))
 }
 
 func (p *pool) stopTimer() {
